@@ -145,18 +145,22 @@ PROPS = {
         "level_note": "Trusted: Lean kernel, model, harness; the table's fidelity to the documentation is by reading.",
     },
     "C04": {
-        "families": [{"name": "ty"}, {"name": "decl"}, {"name": "altform"}],
+        "families": [{"name": "ty"}, {"name": "decl"}, {"name": "altform"}, {"name": "golden"}],
         "tags": {"bytes": "direct", "enc-err": "direct", "enc-outcome": "direct", "altform": "direct", "container-bytes": "direct",
-                 "reject-more": "direct", "invent": "indirect", "dec-model": "indirect", "abs-diff": "indirect"},
+                 "reject-more": "direct", "golden": "direct", "invent": "indirect", "dec-model": "indirect", "abs-diff": "indirect",
+                 "rt": "indirect", "dec-panic": "indirect"},
         "rule": "implementation bytes == model bytes for every generated value of every catalogue type and declaration; every alternative form "
                 "(unknown-length sequences via the real serialize_iterator with an inexact size hint, every source container) decoded by the "
-                "implementation and the model. distinct = distinct (type, value)",
+                "implementation and the model; the repository's golden file (242 540 bytes written by the original Scala desert) decoded "
+                "by the implementation and by the model to the value documented in the repository's golden test, and re-encoded on both sides. "
+                "distinct = distinct (type, value)",
         "trusted": MODEL_TRUST + ["fidelity of the model's format to Scala desert: reading, the derivation.rs byte vector (proved by evaluation), "
-                                  "the golden file (not yet decoded by the model)"],
+                                  "the golden file decoded by the model on every run (family golden; types mirrored from desert_macro/tests/golden.rs)"],
         "level_text": "Proof: the production rules of the format are theorems about the model's encoder (fixed width big-endian, tags, counts, "
                       "length prefixes, tuples, header step codes and position bytes), pinned encodings are proved by evaluation, and the "
                       "unknown-length form decodes to the value it denotes (rt_seq_unknown). The real writer is compared byte for byte with "
-                      "that encoder on every run; a symmetric change of writer and reader breaks the byte comparison.",
+                      "that encoder on every run; a symmetric change of writer and reader breaks the byte comparison, and the model itself is held "
+                      "against bytes produced by Scala desert (golden file) on every run.",
         "level_note": V0_NOTE,
     },
     "C12": {
